@@ -12,6 +12,7 @@ from vmc.core import scratch
 from vmc.fsmodel import FS, MustFail, Unspecified
 
 ID = "C15"
+TECHNIQUE = 'explicit-state model checking: breadth-first search over histories of real file operations on real HDF5 files, states deduplicated by the canonical form of a lock-step reference graph model, invariant evaluated in every state'
 LEVEL = "model_checking"
 RULE = ("explicit-state search: states = contents of two real HDF5 files X, Y (canonicalised through the reference graph model), "
         "transitions = real calls create_cooler(file::path, D1|D2, mode w|a), cp, cp(overwrite), mv, ln (hard), ln (soft), ln (soft -> "
